@@ -83,6 +83,7 @@ class Run:
         self.t0 = time.time()
         self.scratch = os.path.join(OUT, "run-%s-%d" % (pid, os.getpid()))
         shutil.rmtree(self.scratch, ignore_errors=True)
+        shutil.rmtree(os.path.join(OUT, pid), ignore_errors=True)
         os.makedirs(self.scratch)
         self.states = 0
         self.transitions = 0
